@@ -281,6 +281,36 @@ def rule_persisted_grows(ctx):
             ok = "store" in reach and (("reset_queue" in reach) == exp_reset) and (("empty_cache" in reach) == exp_reset)
             ctx.ob(R, "row new%sold q%sp" % (c1, c2), ok, "stored; queue reset and cache emptied: %s" % exp_reset if ok else
                    "for new.next() %s old and queued.next() %s persisted.next() the function reaches %s (expected store, reset/empty iff queued<persisted)" % (c1, c2, sorted(reach)), f.loc())
+    # pruning: the first queued number follows the first persisted one upwards, and only upwards - a block number the
+    # storage has pruned must not stay advertised as available, and the advertised range never grows downwards
+    def m3(a, b):
+        na, nb = chain(a)[1], chain(b)[1]
+        if na[-2:] == ["queued", "first"] and nb[-2:] == ["persisted", "first"]:
+            return 1
+        if nb[-2:] == ["queued", "first"] and na[-2:] == ["persisted", "first"]:
+            return -1
+        return 0
+    wr_first = []
+    for bb in range(len(f.blocks)):
+        for st in f.blocks[bb]["s"]:
+            if st["k"] == "assign" and [e.get("n") for e in st["p"].get("pr", []) if isinstance(e, dict)] == ["queued", "first"]:
+                wr_first.append((bb, T.rvalue(st["r"])))
+    def cls_first(x):
+        nx = chain(x)[1]
+        return "queued" if nx[-2:] == ["queued", "first"] else "persisted" if nx[-2:] == ["persisted", "first"] else None
+    maxform = bool(wr_first) and all(common.select_extreme(ctx, f, v, cls_first) == ("max", common.select_extreme(ctx, f, v, cls_first)[1]) and set(common.select_extreme(ctx, f, v, cls_first)[1]) == {"queued", "persisted"} for _, v in wr_first)
+    if maxform:
+        ctx.ob(R, "queued.first follows persisted.first upwards only", True, "queued.first := max(queued.first, persisted.first)", f.loc())
+    elif wr_first:
+        W3 = Walker(ctx, f, [Atom("cmp(queued.first,persisted.first)", "cmp", m3, ["<", "=", ">"], kills=[])])
+        start = min(wr_persisted) if wr_persisted else 0
+        res = {c: W3.reachable({"cmp(queued.first,persisted.first)": c}, start) for c in "<=>"}
+        wb = set(b for b, _ in wr_first)
+        okf = bool(wb & res["<"]) and not (wb & res[">"]) and all(chain(v)[1][-2:] == ["persisted", "first"] for _, v in wr_first)
+        ctx.ob(R, "queued.first follows persisted.first upwards only", okf, "queued.first := persisted.first exactly when it is lower (pruned blocks stop being advertised; the range never grows downwards)" if okf else
+               "queued.first is %s: blocks the storage has pruned stay advertised as available, or the advertised range is extended below what is held" % ("not raised when it is below persisted.first" if not (wb & res["<"]) else "assigned although it is not below persisted.first (or from another value)"), f.loc())
+    else:
+        ctx.ob(R, "queued.first follows persisted.first upwards only", False, "no assignment to queued.first in update_persisted: pruned blocks stay advertised", f.loc())
     # on the reset branch the cache-emptying post-dominates the queue reset (both happen, no path skips one)
     for wq in wr_queued_all:
         rets = cfg.returns()
